@@ -88,7 +88,8 @@ impl HybridConversionInfo {
     /// Creates a new instance.
     ///
     /// ## Errors
-    /// if `site_domain` is not a valid ASCII string.
+    /// if `site_domain` is not a valid ASCII string, or contains the NUL character that
+    /// delimits it in the serialized form (such a report could never be parsed back).
     pub fn new(
         key_id: KeyIdentifier,
         conversion_site_domain: &str,
@@ -96,7 +97,7 @@ impl HybridConversionInfo {
         epsilon: f64,
         sensitivity: f64,
     ) -> Result<Self, NonAsciiStringError> {
-        if !conversion_site_domain.is_ascii() {
+        if !conversion_site_domain.is_ascii() || conversion_site_domain.contains('\0') {
             return Err(conversion_site_domain.into());
         }
 
